@@ -27,7 +27,7 @@ from ..recipes import build as B
 from ..recipes import ref as R
 
 LEVEL = "exploration"
-BUDGET_S = {"quick": 100, "thorough": 2400}
+BUDGET_S = {"quick": 420, "thorough": 2400}
 N_RANDOM = {"quick": 60, "thorough": 3000}
 
 DECLS = [{"k": "vec", "name": "x", "n": 5}, {"k": "vec", "name": "y", "n": 3}, {"k": "par", "name": "p", "val": 1.25}]
@@ -490,7 +490,10 @@ def run(ctx, rec):
                 # switch thresholds are lowered to 30 instead, so that the iterative algorithms still run on them
                 sizes_heavy = [60, 61]
             if ctx.tier == "quick":
-                # quick: every (kind, op) once per run, the chain length rotating with kind and seed
+                # quick: every (kind, op) once per run, the chain length rotating with kind and seed; the 900-term
+                # products / quotients (8 s each) are left to the thorough tier, 900-term sums stay
+                if op in ("*", "/") and 900 in sizes_heavy:
+                    sizes_heavy = [n_ for n_ in sizes_heavy if n_ != 900]
                 sizes_heavy = [sizes_heavy[(ki + oi + ctx.seed) % len(sizes_heavy)]]
             for n in sizes_heavy:
                 i += 1
@@ -510,7 +513,7 @@ def run(ctx, rec):
                 i += 1
                 if not ctx.mine(i):
                     continue
-                if ctx.tier == "quick" and (ki + oi + ni + ctx.seed) % 4 != 0:
+                if ctx.tier == "quick" and ((ki + oi + ni + ctx.seed) % 4 != 0 or (n == 20000 and (ki + ctx.seed) % 3 != 0)):
                     continue
                 if rec.out_of_time():
                     rec.inconclusive.append("time budget reached in the long-chain matrix")
